@@ -166,7 +166,38 @@ type Feature struct {
 }
 
 type lookupList struct {
-	Lookups []Lookup `arrayCount:"FirstUint16" offsetsArray:"Offset16"` // Array of offsets to Lookup tables, from beginning of LookupList — zero based (first lookup is Lookup index = 0)
+	offsets []Offset16 `arrayCount:"FirstUint16"` // Array of offsets to Lookup tables, from beginning of LookupList — zero based (first lookup is Lookup index = 0)
+	Lookups []Lookup   `isOpaque:""`              // same length as offsets
+}
+
+// maxLookupSubtables is the maximum number of subtables accepted
+// in the LookupList of a layout table : since the subtables may be shared
+// between lookups, an invalid font could otherwise require a parsing time (and memory)
+// out of proportion with the font size.
+// The value mirrors the one used by the Harfbuzz sanitizer.
+const maxLookupSubtables = 0x4000
+
+func (ll *lookupList) parseLookups(src []byte) error {
+	ll.Lookups = make([]Lookup, len(ll.offsets))
+	nbSubtables := 0
+	for i, offset := range ll.offsets {
+		// ignore null offsets
+		if offset == 0 {
+			continue
+		}
+		if L := len(src); L < int(offset) {
+			return fmt.Errorf("EOF: expected length: %d, got %d", offset, L)
+		}
+		var err error
+		ll.Lookups[i], _, err = ParseLookup(src[offset:])
+		if err != nil {
+			return err
+		}
+		if nbSubtables += len(ll.Lookups[i].subtableOffsets); nbSubtables >= maxLookupSubtables {
+			return errors.New("invalid LookupList: too many lookup subtables")
+		}
+	}
+	return nil
 }
 
 // Lookup is the common format for GSUB and GPOS lookups
